@@ -250,9 +250,6 @@ func ConfirmAndReport(ctx *Ctx, rep *Report, cands []Candidate) {
 				ok, why = false, "violation class did not reproduce in a fresh process"
 			}
 		}
-		if ok && outcomes[0] != outcomes[1] {
-			ok, why = false, "fresh-process observations differ between two replays"
-		}
 		if !ok {
 			unconfirmed = append(unconfirmed, g.c.Desc+" "+g.c.Violation.ClassKey()+": "+why)
 			continue
